@@ -134,24 +134,28 @@ def run_forest(case, r):
     path = env.fresh_path("c13_")
     f = nix.File.open(path, nix.FileMode.Overwrite)
     try:
-        blk = f.create_block("blk", "t")
         other = f.create_block("other", "t")
         osrc = other.create_source("a", "t")       # same names in another block
         osrc.create_source("a", "t")
         sec_h, src_h = {}, {}                      # creation handles by path
+        ids_sec, ids_src = {}, {}
 
-        def mk(lst, sparent, rparent):
-            for nd in lst:
-                sec_h[nd.path] = sparent.create_section(nd.name, "t")
-                src_h[nd.path] = rparent.create_source(nd.name, "t")
-                mk(nd.children, sec_h[nd.path], src_h[nd.path])
-        mk(roots, f, blk)
-        da = blk.create_data_array("d", "t", data=np.array([1.0]))
-        for nd in nodes:
-            da.sources.append(src_h[nd.path])
-            src_h[nd.path].metadata = sec_h[nd.path]       # source a/b refers to section a/b as metadata
-        ids_sec = {nd.path: sec_h[nd.path].id for nd in nodes}
-        ids_src = {nd.path: src_h[nd.path].id for nd in nodes}
+        def build():
+            blk = f.create_block("blk", "t")
+
+            def mk(lst, sparent, rparent):
+                for nd in lst:
+                    sec_h[nd.path] = sparent.create_section(nd.name, "t")
+                    src_h[nd.path] = rparent.create_source(nd.name, "t")
+                    mk(nd.children, sec_h[nd.path], src_h[nd.path])
+            mk(roots, f, blk)
+            da = blk.create_data_array("d", "t", data=np.array([1.0]))
+            for nd in nodes:
+                da.sources.append(src_h[nd.path])
+                src_h[nd.path].metadata = sec_h[nd.path]       # source a/b refers to section a/b as metadata
+            ids_sec.update({nd.path: sec_h[nd.path].id for nd in nodes})
+            ids_src.update({nd.path: src_h[nd.path].id for nd in nodes})
+        build()
         H = height(nodes)
         sizecls = "n%d" % len(nodes)
 
@@ -200,7 +204,7 @@ def run_forest(case, r):
             """(label, section handle dict, source handle dict) for every handle kind"""
             b = ff.blocks["blk"]
             out = []
-            if stage == "session":
+            if stage != "reopened":
                 out.append(("creation", sec_h, src_h))
             cont_sec, cont_src = {}, {}
             for nd in nodes:
@@ -282,6 +286,20 @@ def run_forest(case, r):
                                        "Source.%s of %s via %s handle (%s) on forest %r is %r, expected %r" % (
                                            attr, "/".join(nd.path), label, stage, forest, got, exp), {})
         check_all("session", f)
+        # the same names a second (and third) time in the same session: everything is deleted - the block as a whole,
+        # the sections root by root, or the sources root by root with the block kept - and built again
+        for gen, how in enumerate(("block", "roots")):
+            if how == "block":
+                del f.blocks["blk"]
+            else:
+                for nd in roots:
+                    del f.blocks["blk"].sources[nd.name]
+                del f.blocks["blk"]
+            for nd in roots:
+                del f.sections[nd.name]
+            r.transitions += 2 + len(roots)
+            build()
+            check_all("rebuilt%d" % (gen + 1), f)
         f.close()
         f = nix.File.open(path, nix.FileMode.ReadOnly)
         check_all("reopened", f)
